@@ -516,6 +516,29 @@ class _MPShim(object):
         return self._real.Process(*a, **kw)
 
 
+# -- fall-back for a stage module that no longer starts its workers through `multiprocessing.Process`
+#    (e.g. a concurrent.futures pool): the worker function itself is replaced, by a picklable partial of a
+#    module-level function; the worker index is the order in which the invocations start (a counter
+#    directory shared through the file system)
+_REAL_WORKERS = {}
+_ACTIVE_PLAN = [None]
+
+
+def _generic_target(modname, wname, *a, **kw):
+    plan = _ACTIVE_PLAN[0] or {}
+    real = _REAL_WORKERS[(modname, wname)]
+    k = 0
+    cdir = plan.get('_counter_dir')
+    if cdir:
+        while True:
+            try:
+                os.close(os.open(os.path.join(cdir, f'k_{k}'), os.O_CREAT | os.O_EXCL | os.O_WRONLY))
+                break
+            except FileExistsError:
+                k += 1
+    _WrappedTarget(real, k, plan)(*a, **kw)
+
+
 @contextlib.contextmanager
 def injected(plan):
     """plan: dict(sites=[(module, worker_name)], fault=dict(k, mode, point, mid)|None,
@@ -525,6 +548,7 @@ def injected(plan):
         raise RuntimeError('fault injection needs the fork start method')
     counter = [0]
     saved = []
+    saved_fn = []
     try:
         by_mod = {}
         for modname, wname in plan.get('sites', []):
@@ -534,6 +558,17 @@ def injected(plan):
             for n in names:
                 if not callable(getattr(mod, n, None)):
                     raise RuntimeError(f'{modname}.{n} is not a worker function any more')
+            if not hasattr(mod, 'multiprocessing'):
+                import functools
+                import tempfile
+                if '_counter_dir' not in plan:
+                    plan['_counter_dir'] = tempfile.mkdtemp(prefix='verif_kctr_', dir='/tmp')
+                _ACTIVE_PLAN[0] = plan
+                for n in names:
+                    _REAL_WORKERS[(modname, n)] = getattr(mod, n)
+                    saved_fn.append((mod, n, getattr(mod, n)))
+                    setattr(mod, n, functools.partial(_generic_target, modname, n))
+                continue
             real = mod.multiprocessing
             if isinstance(real, _MPShim):
                 real = real._real
@@ -543,6 +578,16 @@ def injected(plan):
     finally:
         for mod, old in reversed(saved):
             mod.multiprocessing = old
+        for mod, n, fn in reversed(saved_fn):
+            setattr(mod, n, fn)
+        _ACTIVE_PLAN[0] = None
+        if plan.get('_counter_dir'):
+            try:
+                plan['dispatched'] = plan.get('dispatched', []) + sorted(
+                    int(x[2:]) for x in os.listdir(plan['_counter_dir']) if x.startswith('k_'))
+            except OSError:
+                pass
+            shutil.rmtree(plan.pop('_counter_dir'), ignore_errors=True)
 
 
 def fault_plan(stage, k, mode, point, mid_index=0, marker=None):
